@@ -56,7 +56,7 @@ def mutate(rng, tree):
                 del t[p]
                 t[p + ".renamed"] = (c, m)
             elif k == "touch":
-                t[p] = (c, m + rng.choice([1, 2, 3600]) * 10**9)
+                t[p] = (c, m + rng.choice([1, 2, 3600, -1, -2, -3600, -86400]) * 10**9)   # later AND earlier than recorded
             touched.add(p)
             kinds.append(k)
     return t, touched, kinds
@@ -113,7 +113,12 @@ def run(oc, tier, seed, model_available, escalate):
                 reported = [r[0] for r in csv.reader(f, delimiter="|", quotechar='"', lineterminator="\n") if r]
         # ---- property oracle (independent of the model)
         want = []
-        for p in [r["path"] for r in ru.read_db(db)]:
+        dbpaths_ = [r["path"] for r in ru.read_db(db)]
+        if sorted(dbpaths_) != sorted(tree):
+            oc.violations.append({"input": {"tree": sorted(tree)}, "impl": {"recorded_paths": sorted(dbpaths_)},
+                                  "what": "the generated database does not record exactly the relative paths of the tree (as the file system holds them)"})
+            continue
+        for p in dbpaths_:
             if single is not None and p != single:
                 continue
             c0, m0 = tree[p]
